@@ -69,7 +69,7 @@ def check_c08(tier, seed, log=print):
             continue
         n += 1
         v = ans.get((i, 'TIE'), '')
-        if c['family'] == 'c08-look' and v.startswith(('TIE', 'FREE')):
+        if c['family'] in ('c08-look', 'c08-look-enum') and v.startswith(('TIE', 'FREE')):
             look_stats['decided'] += 1
             look_stats['ties' if v.startswith('TIE') else 'free'] += 1
         nul = ans.get((i, 'NULLABLE'), '')
